@@ -454,11 +454,11 @@ fn determine_delta_compressability(ints: &[i64]) -> DeltaStats {
     }
 
     let mut previous = ints[1];
-    let mut previous_delta = (ints[1] - ints[0]) as i128;
+    let mut previous_delta = ints[1] as i128 - ints[0] as i128;
     min_delta = previous_delta;
     max_delta = previous_delta;
     for curr in &ints[2..] {
-        let delta = (*curr - previous) as i128;
+        let delta = *curr as i128 - previous as i128;
         min_delta = min_delta.min(delta);
         max_delta = max_delta.max(delta);
         let delta_delta = delta - previous_delta;
@@ -466,6 +466,12 @@ fn determine_delta_compressability(ints: &[i64]) -> DeltaStats {
         max_delta_delta = max_delta_delta.max(delta_delta);
         previous = *curr;
         previous_delta = delta;
+    }
+
+    if min_delta < i64::MIN as i128 || max_delta > i64::MAX as i128 {
+        // The double-delta coder and decoder carry first differences as i64.
+        min_delta_delta = i128::MIN;
+        max_delta_delta = i128::MAX;
     }
 
     DeltaStats {
